@@ -170,6 +170,7 @@ type Hand struct {
 	Replaying   bool
 	ReplayTrace []TraceStep // replay: execute exactly these steps (probe steps are re-made by the monitor)
 	replayPos   int
+	spare       pokerface.Game // a used game object from the pool: the hand may move onto it (LoadState) mid-way
 	lastInc     int64 // size of the last bet or raise actually made in this round, as seen by the driver (0 = none yet)
 }
 
@@ -245,7 +246,7 @@ func playHand(h *Hand, mon Monitor) {
 	c := h.C
 	var g pokerface.Game
 	startFresh := func() (pokerface.Game, error) {
-		f := pokerface.NewPokerFace().NewGame(c.Opts())
+		f := newGameFor(c)
 		if err := f.Start(); err != nil {
 			return nil, err
 		}
@@ -299,9 +300,19 @@ func playHand(h *Hand, mon Monitor) {
 			before := snapJSON(s)
 			for i := 0; i < len(s.Players); i++ {
 				if p := g.Player(i); p != nil {
-					g.GetAvailableActions(p)
-					g.GetAllowedActions(p)
+					// what a getter returns belongs to the caller: it is scribbled on
+					for _, l := range [][]string{g.GetAvailableActions(p), g.GetAllowedActions(p)} {
+						for k := range l {
+							l[k] = "scribble"
+						}
+					}
 				}
+			}
+			if ps := g.GetPlayers(); len(ps) > 1 {
+				// an in-place filter that drops the first seat of the list
+				copy(ps, ps[1:])
+				ps = ps[:len(ps)-1]
+				_ = ps
 			}
 			g.GetAlivePlayerCount()
 			g.GetMovablePlayerCount()
@@ -353,6 +364,10 @@ func playHand(h *Hand, mon Monitor) {
 				} else {
 					op = chooseAction(h.R, s, c, h.lastInc)
 				}
+				if c.ViaHandle && op.Seat == -1 {
+					op.Seat = cur
+					h.Rep.Inc("actions_through_player_handle")
+				}
 			default:
 				mon.Stuck(h, "not-a-wait-point: "+ev)
 				return
@@ -363,10 +378,40 @@ func playHand(h *Hand, mon Monitor) {
 				switch h.R.Intn(24) {
 				case 0:
 					op, kind = Op{Name: "reload", Seat: -1}, "reload"
+				case 3:
+					// the hand moves to another game object of the pool, one that has played part of another hand
+					op, kind = Op{Name: "swap", Seat: -1, Amt: int64(h.R.Intn(48))}, "swap"
 				case 1, 2:
 					op, kind = noiseOp(h.R, ev, len(s.Players)), "noise"
 				}
 			}
+		}
+		if kind == "swap" {
+			h.Trace = append(h.Trace, TraceStep{Op: op, Kind: kind})
+			if h.spare == nil {
+				// the pooled object: a bigger table when this hand has a previous one, else the same table with
+				// the deck cut elsewhere; it stopped after op.Amt steps of its own hand
+				sc := *c
+				if c.Prev != nil && c.Prev.N >= c.N {
+					sc = *c.Prev
+				} else {
+					sc.Deck = append(append([]string{}, c.Deck[11:]...), c.Deck[:11]...)
+				}
+				sc.Prev, sc.Reuse = nil, 0
+				h.spare = playPrefix(&sc, int(op.Amt))
+			}
+			next := h.spare
+			if ns := next.GetState(); ns != nil && len(ns.Status.Board) > len(s.Status.Board) {
+				h.Rep.Inc("moves_to_an_object_that_saw_later_streets")
+			}
+			if err := next.LoadState(cloneGS(s)); err != nil {
+				mon.Stuck(h, "reload-refused: "+err.Error())
+				return
+			}
+			h.spare, g = g, next
+			h.G = g
+			h.Rep.Inc("moves_to_a_pooled_game_object")
+			continue
 		}
 		if kind == "reload" {
 			h.Trace = append(h.Trace, TraceStep{Op: op, Kind: kind})
@@ -427,9 +472,18 @@ func playHand(h *Hand, mon Monitor) {
 	mon.Stuck(h, "step-bound-exceeded")
 }
 
+// newGameFor: the two public ways to make a game - through the PokerFace factory (which stamps a
+// fresh game id) or through the package-level constructor (no id)
+func newGameFor(c *Cfg) pokerface.Game {
+	if c.PlainCtor {
+		return pokerface.NewGame(c.Opts())
+	}
+	return pokerface.NewPokerFace().NewGame(c.Opts())
+}
+
 // playPrefix plays the first steps of another hand with a fixed simple policy and returns the used game object
 func playPrefix(c *Cfg, steps int) pokerface.Game {
-	g := pokerface.NewPokerFace().NewGame(c.Opts())
+	g := newGameFor(c)
 	if g.Start() != nil {
 		return g
 	}
